@@ -19,7 +19,7 @@ RULE = ('(i) exhaustive: case = block of forced issue bit-sets x {correct, wrong
 ASSUMPTIONS = ['the set of disqualifying conditions is the one the library documents in SecurityIssues.causes_signature_verify_to_fail: '
                'WrongSig, Expired, Disabled, Invalid, NoSelfSignature', 'forcing the soundness result replaces only the *input* of the aggregator']
 MIN_COUNTERS = {'forced_verdicts': 8000, 'partition_checked': 8000, 'real_verdicts': 40, 'real_expired': 8, 'monotonic_pairs': 10000}
-BUDGET = {'quick': (150, 600), 'thorough': (1200, 3600)}
+BUDGET = {'quick': (600, 1500), 'thorough': (1200, 3600)}
 TECHNIQUE = 'runtime monitoring: fault enumeration at the verdict aggregator (all 2^11 issue bit-sets) + verdict-model oracle + partition invariant on every result'
 
 DISQ = 0b10000010111   # WrongSig | Expired | Disabled | Invalid | NoSelfSignature  (bits 0,1,2,4,10)
